@@ -1254,3 +1254,225 @@ T('C18', 'twin-pubkey-class-via-local', PK, "        pk = PubKeyV4() if not isin
 M('C18', 'pubkey-class-via-local-keeps-private-subkey', PK, "        pk = PubKeyV4() if not isinstance(self, PrivSubKeyV4) else PubSubKeyV4()\n", "        klass = PrivSubKeyV4 if isinstance(self, PrivSubKeyV4) else PubKeyV4\n        pk = klass()\n", 'C18.6')
 T('C18', 'twin-keyid-of-plain-text', TY, "        return self[-16:]", "        return str(self)[-16:]",
   more=[(PGP, "        if self._key:\n            return self._key.fingerprint\n", "        return self._key.fingerprint if self._key else None\n")])
+# =============================================================================================== C14 / C20 hardening (semantic rules)
+# ---- C14.1 export grammar and filters: loops with guard clauses / nested ifs / chunk lists are the same term as the comprehension
+EXPORT = ("        _bytes = bytearray()\n        # us\n        _bytes += self._key.__bytearray__()\n        # our signatures; ignore embedded signatures\n"
+          "        for sig in iter(s for s in self._signatures if not s.embedded and s.exportable):\n            _bytes += sig.__bytearray__()\n"
+          "        # one or more User IDs, followed by their signatures\n        for uid in self._uids:\n            _bytes += uid._uid.__bytearray__()\n"
+          "            for s in [s for s in uid._signatures if s.exportable]:\n                _bytes += s.__bytearray__()\n"
+          "        # subkeys\n        for sk in self._children.values():\n            _bytes += sk.__bytearray__()\n\n        return _bytes\n")
+KEYSIGS = "        for sig in iter(s for s in self._signatures if not s.embedded and s.exportable):\n            _bytes += sig.__bytearray__()\n"
+UIDSIGS = "            for s in [s for s in uid._signatures if s.exportable]:\n                _bytes += s.__bytearray__()\n"
+T('C14', 'twin-export-chunks-joined', PGP, EXPORT,
+  "        chunks = []\n        chunks.append(self._key.__bytearray__())\n        for sig in self._signatures:\n            if sig.embedded or not sig.exportable:\n                continue\n"
+  "            chunks.append(sig.__bytearray__())\n        for uid in self._uids:\n            chunks.append(uid._uid.__bytearray__())\n"
+  "            exportable = [s for s in uid._signatures if s.exportable]\n            chunks.extend(s.__bytearray__() for s in exportable)\n"
+  "        chunks.extend(sk.__bytearray__() for sk in self._children.values())\n\n        return bytearray().join(chunks)\n")
+T('C14', 'twin-export-guard-clauses', PGP, KEYSIGS,
+  "        for keysig in self._signatures:\n            if keysig.embedded:\n                continue\n            if not keysig.exportable:\n                continue\n            _bytes += keysig.__bytearray__()\n")
+T('C14', 'twin-export-nested-if', PGP, KEYSIGS,
+  "        for keysig in self._signatures:\n            if keysig.exportable:\n                if not keysig.embedded:\n                    _bytes += keysig.__bytearray__()\n")
+T('C14', 'twin-export-demorgan', PGP, KEYSIGS,
+  "        for keysig in self._signatures:\n            if not (keysig.embedded or not keysig.exportable):\n                _bytes += keysig.__bytearray__()\n")
+T('C14', 'twin-export-uidsigs-plain-loop', PGP, UIDSIGS,
+  "            for certification in uid._signatures:\n                if not certification.exportable:\n                    continue\n                _bytes += certification.__bytearray__()\n")
+T('C14', 'twin-export-subkeys-items', PGP, "        for sk in self._children.values():\n            _bytes += sk.__bytearray__()\n\n        return _bytes",
+  "        for _keyid, subkey in self._children.items():\n            _bytes += subkey.__bytearray__()\n\n        return _bytes")
+M('C14', 'export-or-filter', PGP, KEYSIGS, "        for sig in iter(s for s in self._signatures if not s.embedded or s.exportable):\n            _bytes += sig.__bytearray__()\n", 'C14.1')
+M('C14', 'export-guard-wrong-polarity', PGP, KEYSIGS,
+  "        for sig in self._signatures:\n            if sig.embedded or sig.exportable:\n                continue\n            _bytes += sig.__bytearray__()\n", 'C14.1')
+M('C14', 'export-guard-exportable-dropped', PGP, KEYSIGS,
+  "        for sig in self._signatures:\n            if sig.embedded:\n                continue\n            _bytes += sig.__bytearray__()\n", 'C14.1')
+M('C14', 'export-uid-gets-key-sigs', PGP, UIDSIGS, "            for s in [s for s in self._signatures if s.exportable]:\n                _bytes += s.__bytearray__()\n", 'C14.1')
+M('C14', 'export-unsigned-uids-dropped', PGP, "        for uid in self._uids:\n            _bytes += uid._uid.__bytearray__()\n            for s in [s",
+  "        for uid in self._uids:\n            if not uid._signatures:\n                continue\n            _bytes += uid._uid.__bytearray__()\n            for s in [s", 'C14.1')
+M('C14', 'export-uid-sigs-expired-dropped', PGP, UIDSIGS, "            for s in [s for s in uid._signatures if s.exportable and not s.is_expired]:\n                _bytes += s.__bytearray__()\n", 'C14.1')
+# ---- C14.2
+EXPORTABLE = "        if 'ExportableCertification' in self._signature.subpackets:\n            return bool(next(iter(self._signature.subpackets['ExportableCertification'])))\n\n        return True\n"
+T('C14', 'twin-exportable-inverted-guard', PGP, EXPORTABLE,
+  "        subpackets = self._signature.subpackets\n        if 'ExportableCertification' not in subpackets:\n            return True\n\n        return bool(next(iter(subpackets['ExportableCertification'])))\n")
+T('C14', 'twin-exportable-conditional-expression', PGP, EXPORTABLE,
+  "        sp = self._signature.subpackets\n        return bool(next(iter(sp['ExportableCertification']))) if 'ExportableCertification' in sp else True\n")
+T('C14', 'twin-exportable-first-element', PGP, EXPORTABLE,
+  "        if 'ExportableCertification' in self._signature.subpackets:\n            return self._signature.subpackets['ExportableCertification'][0].bflag\n\n        return True\n")
+M('C14', 'exportable-inverted-default-false', PGP, EXPORTABLE,
+  "        subpackets = self._signature.subpackets\n        if 'ExportableCertification' not in subpackets:\n            return False\n\n        return bool(next(iter(subpackets['ExportableCertification'])))\n", 'C14.2')
+M('C14', 'exportable-flag-negated', PGP, EXPORTABLE,
+  "        if 'ExportableCertification' in self._signature.subpackets:\n            return not next(iter(self._signature.subpackets['ExportableCertification']))\n\n        return True\n", 'C14.2')
+M('C14', 'exportable-wrong-subpacket', PGP, EXPORTABLE,
+  "        if 'ExportableCertification' in self._signature.subpackets:\n            return bool(next(iter(self._signature.subpackets['Revocable'])))\n\n        return True\n", 'C14.2')
+T('C14', 'twin-boolean-param-rename', SS, "    def bflag_bytearray(self, val):\n        self.bflag = bool(self.bytes_to_int(val))", "    def bflag_bytearray(self, octets):\n        self.bflag = self.bytes_to_int(octets) != 0")
+M('C14', 'boolean-bool-setter-other-attr', SS, "    def bflag_bool(self, val):\n        self._bool = val", "    def bflag_bool(self, val):\n        self._bflag = val", 'C14.2')
+# ---- C14.3
+GROUPS = "            for group in iter(group for _, group in itertools.groupby(getpkt, key=pktgrouper()) if not _.endswith('Opaque')):\n                pkt = next(group)\n"
+ATTACH = "                [ operator.ior(pgpobj, PGPSignature() | sig) for sig in group if not isinstance(sig, Opaque) ]\n"
+TRUST = "        getpkt = filter(lambda p: p.header.tag != PacketTag.Trust, iter(functools.partial(_getpkt, data), None))\n"
+GROUPER = "                    if pkt.header.tag != PacketTag.Signature:\n                        self.last = '{:02X}_{:s}'.format(id(pkt), pkt.__class__.__name__)\n                    return self.last\n"
+FILING = ("                if isinstance(pgpobj, PGPKey):\n                    if pgpobj.is_primary:\n                        keys[(pgpobj.fingerprint.keyid, pgpobj.is_public)] = pgpobj\n\n"
+          "                    else:\n                        keys[next(reversed(keys))] |= pgpobj\n\n                elif isinstance(pgpobj, PGPUID):\n"
+          "                    # parent is likely the most recently parsed primary key\n                    keys[next(reversed(keys))] |= pgpobj\n\n"
+          "                else:  # pragma: no cover\n                    break\n")
+T('C14', 'twin-groups-plain-loop', PGP, GROUPS,
+  "            for groupname, group in itertools.groupby(getpkt, key=pktgrouper()):\n                if groupname.endswith('Opaque'):\n                    continue\n\n                pkt = next(group)\n")
+T('C14', 'twin-attach-plain-loop', PGP, ATTACH,
+  "                for sig in group:\n                    if isinstance(sig, Opaque):\n                        continue\n                    pgpobj |= PGPSignature() | sig\n")
+T('C14', 'twin-attach-guarded-loop', PGP, ATTACH,
+  "                for sigpkt in group:\n                    if not isinstance(sigpkt, Opaque):\n                        pgpobj |= PGPSignature() | sigpkt\n")
+T('C14', 'twin-attach-mapped-loop', PGP, ATTACH,
+  "                for pgpsig in (PGPSignature() | s for s in group if not isinstance(s, Opaque)):\n                    pgpobj |= pgpsig\n")
+T('C14', 'twin-trust-generator-expression', PGP, TRUST,
+  "        getpkt = (p for p in iter(functools.partial(_getpkt, data), None) if p.header.tag != PacketTag.Trust)\n")
+T('C14', 'twin-trust-not-eq', PGP, TRUST,
+  "        packets = iter(functools.partial(_getpkt, data), None)\n        getpkt = filter(lambda pkt: not pkt.header.tag == PacketTag.Trust, packets)\n")
+T('C14', 'twin-grouper-early-return', PGP, GROUPER,
+  "                    if pkt.header.tag == PacketTag.Signature:\n                        return self.last\n                    self.last = '{:02X}_{:s}'.format(id(pkt), pkt.__class__.__name__)\n                    return self.last\n")
+T('C14', 'twin-filing-merged-arms', PGP, FILING,
+  "                if isinstance(pgpobj, PGPKey) and pgpobj.is_primary:\n                    keys[(pgpobj.fingerprint.keyid, pgpobj.is_public)] = pgpobj\n\n"
+  "                elif isinstance(pgpobj, (PGPKey, PGPUID)):\n                    # parent is likely the most recently parsed primary key\n                    latest = next(reversed(keys))\n                    keys[latest] |= pgpobj\n\n"
+  "                else:  # pragma: no cover\n                    break\n")
+T('C14', 'twin-head-if-statement', PGP, "                    pgpobj = (self if self._key is None else PGPKey()) | pkt\n",
+  "                    if self._key is None:\n                        owner = self\n                    else:\n                        owner = PGPKey()\n                    pgpobj = owner | pkt\n")
+M('C14', 'attach-to-self', PGP, ATTACH, "                [ operator.ior(self, PGPSignature() | sig) for sig in group if not isinstance(sig, Opaque) ]\n", 'C14.3')
+M('C14', 'attach-loop-stops-at-opaque', PGP, ATTACH,
+  "                for sig in group:\n                    if isinstance(sig, Opaque):\n                        break\n                    pgpobj |= PGPSignature() | sig\n", 'C14.3')
+M('C14', 'attach-only-certifications', PGP, ATTACH,
+  "                for sig in group:\n                    if isinstance(sig, Opaque) or sig.sigtype == SignatureType.Timestamp:\n                        continue\n                    pgpobj |= PGPSignature() | sig\n", 'C14.3')
+M('C14', 'user-attribute-groups-skipped', PGP, GROUPS,
+  "            for group in iter(group for _, group in itertools.groupby(getpkt, key=pktgrouper()) if not _.endswith(('Opaque', 'UserAttribute'))):\n                pkt = next(group)\n", 'C14.3')
+M('C14', 'opaque-groups-kept', PGP, GROUPS,
+  "            for group in iter(group for _, group in itertools.groupby(getpkt, key=pktgrouper())):\n                pkt = next(group)\n", 'C14.3')
+M('C14', 'trust-filter-marker', PGP, TRUST, "        getpkt = filter(lambda p: p.header.tag != PacketTag.Marker, iter(functools.partial(_getpkt, data), None))\n", 'C14.3')
+M('C14', 'trust-filter-also-drops-attributes', PGP, TRUST,
+  "        getpkt = filter(lambda p: p.header.tag not in (PacketTag.Trust, PacketTag.UserAttribute), iter(functools.partial(_getpkt, data), None))\n", 'C14.3')
+M('C14', 'grouper-class-name-only', PGP, GROUPER,
+  "                    if pkt.header.tag != PacketTag.Signature:\n                        self.last = pkt.__class__.__name__\n                    return self.last\n", 'C14.3')
+M('C14', 'grouper-splits-on-trust', PGP, GROUPER,
+  "                    if pkt.header.tag not in (PacketTag.Signature, PacketTag.UserAttribute):\n                        self.last = '{:02X}_{:s}'.format(id(pkt), pkt.__class__.__name__)\n                    return self.last\n", 'C14.3')
+M('C14', 'subkey-to-first-key', PGP, "                    else:\n                        keys[next(reversed(keys))] |= pgpobj\n", "                    else:\n                        keys[next(iter(keys))] |= pgpobj\n", 'C14.3')
+M('C14', 'subkey-filed-as-key', PGP, "                    if pgpobj.is_primary:\n                        keys[(pgpobj.fingerprint.keyid, pgpobj.is_public)] = pgpobj\n\n                    else:\n                        keys[next(reversed(keys))] |= pgpobj\n",
+  "                    keys[(pgpobj.fingerprint.keyid, pgpobj.is_public)] = pgpobj\n", 'C14.3')
+# ---- C14.4
+KEYCOPY_SIGS = "        for sig in self._signatures:\n            if sig.embedded:\n                # embedded signatures don't need to be explicitly copied\n                continue\n\n            key |= copy.copy(sig)\n"
+T('C14', 'twin-copy-values-and-guard', PGP, "        for id, subkey in self._children.items():\n            key |= copy.copy(subkey)\n\n" + KEYCOPY_SIGS,
+  "        for subkey in self._children.values():\n            key |= copy.copy(subkey)\n\n        for sig in self._signatures:\n            if not sig.embedded:\n                key |= copy.copy(sig)\n")
+T('C14', 'twin-copy-mapped', PGP, "        for uid in self._uids:\n            key |= copy.copy(uid)\n", "        for uidcopy in [copy.copy(u) for u in self._uids]:\n            key |= uidcopy\n")
+T('C14', 'twin-copy-renamed-result', PGP, "        key = super(PGPKey, self).__copy__()\n        key._key = copy.copy(self._key)\n\n        for uid in self._uids:\n            key |= copy.copy(uid)\n\n        for id, subkey in self._children.items():\n            key |= copy.copy(subkey)\n\n" + KEYCOPY_SIGS + "\n        return key\n",
+  "        dup = super().__copy__()\n        keypkt = copy.copy(self._key)\n        dup._key = keypkt\n\n        for uid in self._uids:\n            dup |= copy.copy(uid)\n\n        for subkey in self._children.values():\n            dup |= copy.copy(subkey)\n\n"
+  "        for sig in (s for s in self._signatures if not s.embedded):\n            dup |= copy.copy(sig)\n\n        return dup\n")
+M('C14', 'copy-skips-nonexportable', PGP, KEYCOPY_SIGS, "        for sig in self._signatures:\n            if sig.embedded or not sig.exportable:\n                continue\n\n            key |= copy.copy(sig)\n", 'C14.4')
+M('C14', 'copy-shares-signatures', PGP, KEYCOPY_SIGS, "        for sig in self._signatures:\n            if sig.embedded:\n                continue\n\n            key |= sig\n", 'C14.4')
+M('C14', 'copy-only-self-certified-uids', PGP, "        for uid in self._uids:\n            key |= copy.copy(uid)\n", "        for uid in self._uids:\n            if uid.selfsig is None:\n                continue\n            key |= copy.copy(uid)\n", 'C14.4')
+M('C14', 'uid-copy-shares-packet', PGP, "        uid |= copy.copy(self._uid)\n        for sig in self._signatures:", "        uid |= self._uid\n        for sig in self._signatures:", 'C14.4')
+M('C14', 'sig-copy-shares-packet', PGP, "        sig |= copy.copy(self._signature)\n        return sig", "        sig |= self._signature\n        return sig", 'C14.4')
+T('C14', 'twin-uid-copy-renamed', PGP, "        uid = PGPUID()\n        uid |= copy.copy(self._uid)\n        for sig in self._signatures:\n            uid |= copy.copy(sig)\n        return uid",
+  "        dup = PGPUID()\n        pkt = copy.copy(self._uid)\n        dup |= pkt\n        for certification in self._signatures:\n            dup |= copy.copy(certification)\n        return dup")
+# ---- C14.5
+EMBED = ("            if other.type == SignatureType.Subkey_Binding:\n                for es in iter(pkb for pkb in other._signature.subpackets['EmbeddedSignature']):\n"
+         "                    esig = PGPSignature() | es\n                    esig._parent = other\n                    self._signatures.insort(esig)\n")
+T('C14', 'twin-embedded-helper-method', PGP, "            self._signatures.insort(other)\n\n            # if this is a subkey binding signature that has embedded primary key binding signatures, add them to parent\n" + EMBED,
+  "            self._signatures.insort(other)\n            self._attach_embedded_signatures(other)\n",
+  more=[(PGP, "    def __or__(self, other, from_sib=False):\n        if isinstance(other, Key) and self._key is None:",
+         "    def _attach_embedded_signatures(self, binding):\n        if binding.type != SignatureType.Subkey_Binding:\n            return\n\n"
+         "        for sigpkt in binding._signature.subpackets['EmbeddedSignature']:\n            embedded = PGPSignature() | sigpkt\n            embedded._parent = binding\n            self._signatures.insort(embedded)\n\n"
+         "    def __or__(self, other, from_sib=False):\n        if isinstance(other, Key) and self._key is None:")])
+T('C14', 'twin-embedded-plain-loop', PGP, EMBED,
+  "            if SignatureType.Subkey_Binding == other.type:\n                for crosssig in other._signature.subpackets['EmbeddedSignature']:\n"
+  "                    pkb = PGPSignature() | crosssig\n                    self._signatures.insort(pkb)\n                    pkb._parent = other\n")
+T('C14', 'twin-uid-or-merged-arms', PGP, "        if isinstance(other, UserID) and self._uid is None:\n            self._uid = other\n            return self\n\n        if isinstance(other, UserAttribute) and self._uid is None:\n            self._uid = other\n            return self\n",
+  "        if isinstance(other, (UserID, UserAttribute)) and self._uid is None:\n            self._uid = other\n            return self\n")
+M('C14', 'embedded-parent-is-key', PGP, "                    esig._parent = other\n", "                    esig._parent = self\n", 'C14.5')
+M('C14', 'embedded-not-inserted', PGP, "                    esig._parent = other\n                    self._signatures.insort(esig)\n", "                    esig._parent = other\n", 'C14.5')
+M('C14', 'embedded-on-key-revocation', PGP, "            if other.type == SignatureType.Subkey_Binding:\n                for es in iter(pkb", "            if other.type == SignatureType.SubkeyRevocation:\n                for es in iter(pkb", 'C14.5')
+M('C14', 'embedded-first-only', PGP, "                for es in iter(pkb for pkb in other._signature.subpackets['EmbeddedSignature']):", "                for es in other._signature.subpackets['EmbeddedSignature'][:1]:", 'C14.5')
+M('C14', 'subkey-under-parent-keyid', PGP, "            self._children[other.fingerprint.keyid] = other\n", "            self._children[self.fingerprint.keyid] = other\n", 'C14.5')
+M('C14', 'uid-not-linked', PGP, "            other._parent = weakref.ref(self)\n            self._uids.insort(other)\n", "            self._uids.insort(other)\n", 'C14.5')
+M('C14', 'uid-signature-appended-left', PGP, "        if isinstance(other, PGPSignature):\n            self._signatures.insort(other)\n            if self.parent is not None and self in self.parent._uids:", "        if isinstance(other, PGPSignature):\n            self._signatures.appendleft(other)\n            if self.parent is not None and self in self.parent._uids:", 'C14.5')
+
+# ---- C20
+OPSLOOP = ("            for sig in reversed(self._signatures):\n                ops = sig.make_onepass()\n                # only the last one-pass packet, the one directly before the signed data, is flagged\n"
+           "                if sig is self._signatures[0]:\n                    ops.nested = True\n                yield ops\n")
+T('C20', 'twin-iter-helper-generator', PGP, "    def __iter__(self):\n        if self.type == 'cleartext':\n            for sig in self._signatures:\n                yield sig\n\n        elif self.is_encrypted:\n            for sig in self._signatures:\n                yield sig\n            for pkt in self._sessionkeys:\n                yield pkt\n            yield self.message\n\n        else:\n            ##TODO: is it worth coming up with a way of disabling one-pass signing?\n" + OPSLOOP +
+  "\n            yield self._message\n            if self._mdc is not None:  # pragma: no cover\n                yield self._mdc\n\n            for sig in self._signatures:\n                yield sig\n",
+  "    def _onepass_headers(self):\n        for sig in reversed(self._signatures):\n            ops = sig.make_onepass()\n            if sig is self._signatures[0]:\n                ops.nested = True\n            yield ops\n\n"
+  "    def __iter__(self):\n        if self.type == 'cleartext':\n            for sig in self._signatures:\n                yield sig\n            return\n\n        if self.is_encrypted:\n            for sig in self._signatures:\n                yield sig\n            for pkt in self._sessionkeys:\n                yield pkt\n            yield self.message\n            return\n\n"
+  "        for ops in self._onepass_headers():\n            yield ops\n\n        yield self._message\n        if self._mdc is not None:  # pragma: no cover\n            yield self._mdc\n\n        for sig in self._signatures:\n            yield sig\n")
+T('C20', 'twin-flag-operands-swapped', PGP, OPSLOOP,
+  "            oldest = self._signatures[0]\n            for signature in reversed(self._signatures):\n                header = signature.make_onepass()\n                if oldest is signature:\n                    header.nested = True\n                yield header\n")
+T('C20', 'twin-flag-assigned-condition', PGP, OPSLOOP,
+  "            for sig in reversed(self._signatures):\n                ops = sig.make_onepass()\n                ops.nested = sig is self._signatures[0]\n                yield ops\n")
+T('C20', 'twin-flag-not-last-else', PGP, OPSLOOP,
+  "            for sig in reversed(self._signatures):\n                ops = sig.make_onepass()\n                if sig is not self._signatures[0]:\n                    pass\n                else:\n                    ops.nested = True\n                yield ops\n")
+M('C20', 'flag-on-creation-time-tie', PGP, OPSLOOP.split('                if sig')[0] + "                if sig.created == self._signatures[0].created:\n                    ops.nested = True\n                yield ops\n" if False else
+  "                if sig is self._signatures[0]:\n                    ops.nested = True\n                yield ops", "                if sig.created == self._signatures[0].created:\n                    ops.nested = True\n                yield ops", 'C20.4')
+M('C20', 'flag-set-on-other-packet', PGP, "                if sig is self._signatures[0]:\n                    ops.nested = True\n                yield ops", "                if sig is self._signatures[0]:\n                    sig.make_onepass().nested = True\n                yield ops", 'C20.4')
+M('C20', 'flag-assigned-negated', PGP, OPSLOOP,
+  "            for sig in reversed(self._signatures):\n                ops = sig.make_onepass()\n                ops.nested = sig is not self._signatures[0]\n                yield ops\n", 'C20.4')
+M('C20', 'ops-from-first-signature', PGP, "            for sig in reversed(self._signatures):\n                ops = sig.make_onepass()\n", "            for sig in reversed(self._signatures):\n                ops = self._signatures[0].make_onepass()\n", 'C20')
+M('C20', 'nested-default-true', PK, "        self._signer = b'\\x00' * 8\n        self.nested = False", "        self._signer = b'\\x00' * 8\n        self.nested = True", 'C20.4')
+M('C20', 'onepass-sigtype-constant', PGP, "        onepass.sigtype = self.type\n", "        onepass.sigtype = SignatureType.BinaryDocument\n", 'C20.3')
+T('C20', 'twin-onepass-renamed', PGP, "        onepass = OnePassSignatureV3()\n        onepass.sigtype = self.type\n        onepass.halg = self.hash_algorithm\n        onepass.pubalg = self.key_algorithm\n        onepass.signer = self.signer\n        onepass.update_hlen()\n        return onepass",
+  "        ops = OnePassSignatureV3()\n        keyid = self.signer\n        ops.signer = keyid\n        ops.pubalg = self.key_algorithm\n        ops.halg = self.hash_algorithm\n        ops.sigtype = self.type\n        ops.update_hlen()\n        return ops")
+MSGBYTES = "        _bytes = bytearray()\n        for pkt in self:\n            _bytes += pkt.__bytearray__()\n        return _bytes\n\n    def __str__(self):\n        if self.type == 'cleartext':"
+T('C20', 'twin-message-bytes-join', PGP, MSGBYTES, "        return bytearray().join(pkt.__bytearray__() for pkt in self)\n\n    def __str__(self):\n        if self.type == 'cleartext':")
+T('C20', 'twin-compressed-bytes-join', PK, "        _pb = bytearray()\n        for pkt in self.packets:\n            _pb += pkt.__bytearray__()\n        _bytes += self.calg.compress(bytes(_pb))",
+  "        _pb = b''.join(pkt.__bytearray__() for pkt in self.packets)\n        _bytes += self.calg.compress(_pb)")
+T('C20', 'twin-ops-bytes-one-append', PK, "        _bytes += bytearray([self.sigtype])\n        _bytes += bytearray([self.halg])\n        _bytes += bytearray([self.pubalg])\n        _bytes += binascii.unhexlify(self.signer.encode(\"latin-1\"))\n        _bytes += bytearray([int(self.nested)])",
+  "        _bytes += bytearray([self.sigtype, self.halg, self.pubalg])\n        _bytes += binascii.unhexlify(self.signer.encode(\"latin-1\")) + bytearray([int(self.nested)])")
+T('C20', 'twin-compressed-object-renamed', PGP, "            comp = CompressedData()\n            comp.calg = self._compression\n            comp.packets = [pkt for pkt in self]\n            comp.update_hlen()\n            return comp.__bytearray__()",
+  "            container = CompressedData()\n            container.packets = list(self)\n            container.calg = self._compression\n            container.update_hlen()\n            return container.__bytearray__()")
+M('C20', 'compressed-hlen-before-packets', PGP, "            comp.packets = [pkt for pkt in self]\n            comp.update_hlen()\n", "            comp.update_hlen()\n            comp.packets = [pkt for pkt in self]\n", 'C20.5')
+M('C20', 'message-bytes-skip-mdc', PGP, MSGBYTES, "        return bytearray().join(pkt.__bytearray__() for pkt in self if pkt is not self._mdc)\n\n    def __str__(self):\n        if self.type == 'cleartext':", 'C20.5')
+T('C20', 'twin-is-compressed-if-form', PGP, "        return self._compression != CompressionAlgorithm.Uncompressed", "        if self._compression == CompressionAlgorithm.Uncompressed:\n            return False\n        return True")
+M('C20', 'is-compressed-zip-only', PGP, "        return self._compression != CompressionAlgorithm.Uncompressed", "        return self._compression == CompressionAlgorithm.ZIP", 'C20.5')
+ORCOMP = "            self._compression = other.calg\n            for pkt in other.packets:\n                self |= pkt\n            return self\n"
+T('C20', 'twin-or-compressed-renamed', PGP, ORCOMP, "            algorithm = other.calg\n            for inner in other.packets:\n                self |= inner\n            self._compression = algorithm\n            return self\n")
+M('C20', 'or-compressed-first-packet-only', PGP, ORCOMP, "            self._compression = other.calg\n            for pkt in other.packets[:1]:\n                self |= pkt\n            return self\n", 'C20.5')
+M('C20', 'or-compressed-skips-signatures', PGP, ORCOMP, "            self._compression = other.calg\n            for pkt in other.packets:\n                if isinstance(pkt, Signature):\n                    continue\n                self |= pkt\n            return self\n", 'C20.5')
+M('C20', 'compressed-packet-first-only', PK, "        for pkt in self.packets:\n            _pb += pkt.__bytearray__()\n        _bytes += self.calg.compress(bytes(_pb))", "        for pkt in self.packets[:1]:\n            _pb += pkt.__bytearray__()\n        _bytes += self.calg.compress(bytes(_pb))", 'C20.5')
+LITTAIL = "        self._contents = packet[:self.header.length - (6 + fnl)]\n        del packet[:self.header.length - (6 + fnl)]\n"
+T('C20', 'twin-literal-length-temporary', PK, LITTAIL, "        clen = self.header.length - (6 + fnl)\n        self._contents = packet[:clen]\n        del packet[:clen]\n")
+T('C20', 'twin-literal-length-respelled', PK, "        fnl = packet[0]\n        del packet[0]\n\n        self.filename = packet[:fnl].decode()\n        del packet[:fnl]\n\n        self.mtime = packet[:4]\n        del packet[:4]\n\n" + LITTAIL,
+  "        namelen = packet[0]\n        del packet[0]\n\n        self.filename = packet[:namelen].decode('utf-8')\n        del packet[:namelen]\n\n        self.mtime = packet[:4]\n        del packet[:4]\n\n"
+  "        remaining = self.header.length - namelen - 6\n        self._contents = packet[:remaining]\n        del packet[:remaining]\n")
+M('C20', 'literal-contents-len-5', PK, LITTAIL, "        self._contents = packet[:self.header.length - (5 + fnl)]\n        del packet[:self.header.length - (5 + fnl)]\n", 'C20.6')
+M('C20', 'literal-reader-latin1', PK, "        self.filename = packet[:fnl].decode()\n", "        self.filename = packet[:fnl].decode('latin-1')\n", 'C20.6')
+M('C20', 'literal-time-before-name', PK, "        self.filename = packet[:fnl].decode()\n        del packet[:fnl]\n\n        self.mtime = packet[:4]\n        del packet[:4]\n", "        self.mtime = packet[:4]\n        del packet[:4]\n\n        self.filename = packet[:fnl].decode()\n        del packet[:fnl]\n", 'C20.6')
+M('C20', 'ops-reader-pubalg-before-halg', PK, "        self.halg = packet[0]\n        del packet[0]\n\n        self.pubalg = packet[0]\n        del packet[0]\n\n        self.signer = packet[:8]", "        self.pubalg = packet[0]\n        del packet[0]\n\n        self.halg = packet[0]\n        del packet[0]\n\n        self.signer = packet[:8]", 'C20.6')
+M('C20', 'ops-reader-flag-inverted', PK, "        self.nested = (packet[0] == 1)\n", "        self.nested = (packet[0] == 0)\n", 'C20.6')
+T('C20', 'twin-ops-reader-renamed-buffer', PK, "    def parse(self, packet):\n        super(OnePassSignatureV3, self).parse(packet)\n        self.sigtype = packet[0]\n        del packet[0]\n\n        self.halg = packet[0]\n        del packet[0]\n\n        self.pubalg = packet[0]\n        del packet[0]\n\n        self.signer = packet[:8]\n        del packet[:8]\n\n        self.nested = (packet[0] == 1)\n        del packet[0]\n",
+  "    def parse(self, buf):\n        super().parse(buf)\n        self.sigtype = buf[0]\n        del buf[0]\n\n        self.halg = buf[0]\n        del buf[0]\n\n        self.pubalg = buf[0]\n        del buf[0]\n\n        self.signer = buf[:8]\n        del buf[:8]\n\n        self.nested = buf[0] != 0\n        del buf[0]\n")
+NEWLIT = ("            lit = LiteralData()\n            lit._contents = bytearray(msg.text_to_bytes(message))\n            lit.filename = '_CONSOLE' if sensitive else os.path.basename(filename)\n"
+          "            lit.mtime = mtime\n            lit.format = format\n")
+T('C20', 'twin-new-literal-renamed', PGP, NEWLIT + "\n            # if cls.is_ascii(message):\n            #     lit.format = 't'\n\n            lit.update_hlen()\n\n            msg |= lit\n",
+  "            body = msg.text_to_bytes(message)\n            if sensitive:\n                litname = '_CONSOLE'\n            else:\n                litname = os.path.basename(filename)\n            literal = LiteralData()\n            literal._contents = bytearray(body)\n"
+  "            literal.filename = litname\n            literal.mtime = mtime\n            literal.format = format\n\n            literal.update_hlen()\n\n            msg |= literal\n")
+M('C20', 'new-compression-forced-zip', PGP, "            msg |= lit\n            msg._compression = compression\n", "            msg |= lit\n            msg._compression = CompressionAlgorithm.ZIP\n", 'C20.6')
+M('C20', 'new-sensitive-inverted', PGP, "            lit.filename = '_CONSOLE' if sensitive else os.path.basename(filename)", "            lit.filename = os.path.basename(filename) if sensitive else '_CONSOLE'", 'C20.6')
+M('C20', 'new-no-update-hlen', PGP, "            lit.update_hlen()\n\n            msg |= lit\n", "            msg |= lit\n", 'C20.6')
+T('C20', 'twin-trailing-yield-from', PGP, "            for sig in self._signatures:\n                yield sig\n\n    def __or__(self, other):\n        if isinstance(other, Marker):", "            yield from self._signatures\n\n    def __or__(self, other):\n        if isinstance(other, Marker):")
+T('C20', 'twin-ops-reversed-copy', PGP, "            for sig in reversed(self._signatures):\n                ops = sig.make_onepass()\n", "            for sig in reversed(list(self._signatures)):\n                ops = sig.make_onepass()\n")
+M('C20', 'trailing-sigs-yield-from-reversed', PGP, "            for sig in self._signatures:\n                yield sig\n\n    def __or__(self, other):\n        if isinstance(other, Marker):", "            yield from reversed(self._signatures)\n\n    def __or__(self, other):\n        if isinstance(other, Marker):", 'C20.2')
+M('C20', 'flag-dropped', PGP, "                if sig is self._signatures[0]:\n                    ops.nested = True\n                yield ops", "                yield ops", 'C20.4')
+T('C14', 'twin-export-extend', PGP, KEYSIGS, "        for sig in iter(s for s in self._signatures if not s.embedded and s.exportable):\n            _bytes.extend(sig.__bytearray__())\n")
+T('C14', 'twin-stream-inlined', PGP, TRUST + "\n        def pktgrouper():", "        def pktgrouper():",
+  more=[(PGP, "itertools.groupby(getpkt, key=pktgrouper())", "itertools.groupby(filter(lambda p: p.header.tag != PacketTag.Trust, iter(functools.partial(_getpkt, data), None)), key=pktgrouper())")])
+T('C14', 'twin-copy-binary-or', PGP, "        for uid in self._uids:\n            key |= copy.copy(uid)\n", "        for uid in self._uids:\n            key = key | copy.copy(uid)\n")
+T('C20', 'twin-new-option-bool', PGP, "        sensitive = kwargs.pop('sensitive', False)\n", "        sensitive = bool(kwargs.pop('sensitive', False))\n")
+T('C14', 'twin-grouper-closure', PGP, "        def pktgrouper():\n            class PktGrouper(object):\n                def __init__(self):\n                    self.last = None\n\n                def __call__(self, pkt):\n" + GROUPER + "            return PktGrouper()\n",
+  "        grouplabel = [None]\n\n        def grouper(pkt):\n            if pkt.header.tag != PacketTag.Signature:\n                grouplabel[0] = '{:02X}_{:s}'.format(id(pkt), pkt.__class__.__name__)\n            return grouplabel[0]\n",
+  more=[(PGP, "itertools.groupby(getpkt, key=pktgrouper())", "itertools.groupby(getpkt, key=grouper)")])
+M('C14', 'grouper-closure-every-packet', PGP, "        def pktgrouper():\n            class PktGrouper(object):\n                def __init__(self):\n                    self.last = None\n\n                def __call__(self, pkt):\n" + GROUPER + "            return PktGrouper()\n",
+  "        grouplabel = [None]\n\n        def grouper(pkt):\n            grouplabel[0] = '{:02X}_{:s}'.format(id(pkt), pkt.__class__.__name__)\n            return grouplabel[0]\n", 'C14.3',
+  more=[(PGP, "itertools.groupby(getpkt, key=pktgrouper())", "itertools.groupby(getpkt, key=grouper)")])
+T('C14', 'twin-copy-chained', PGP, "        for uid in self._uids:\n            key |= copy.copy(uid)\n\n        for id, subkey in self._children.items():\n            key |= copy.copy(subkey)\n",
+  "        for part in itertools.chain(self._uids, self._children.values()):\n            key |= copy.copy(part)\n")
+T('C14', 'twin-export-helper-filter', PGP, UIDSIGS, "            for s in self._exportable_only(uid._signatures):\n                _bytes += s.__bytearray__()\n",
+  more=[(PGP, "    def __bytearray__(self):\n        _bytes = bytearray()\n        # us\n", "    @staticmethod\n    def _exportable_only(sigs):\n        return [s for s in sigs if s.exportable]\n\n    def __bytearray__(self):\n        _bytes = bytearray()\n        # us\n")])
+M('C14', 'copy-chained-without-subkeys', PGP, "        for uid in self._uids:\n            key |= copy.copy(uid)\n\n        for id, subkey in self._children.items():\n            key |= copy.copy(subkey)\n",
+  "        for part in itertools.chain(self._uids):\n            key |= copy.copy(part)\n", 'C14.4')
+T('C14', 'twin-copy-subkeys-by-keyid', PGP, "        for id, subkey in self._children.items():\n            key |= copy.copy(subkey)\n", "        for keyid in self._children:\n            key |= copy.copy(self._children[keyid])\n")
+M('C14', 'copy-subkey-ids-instead-of-subkeys', PGP, "        for id, subkey in self._children.items():\n            key |= copy.copy(subkey)\n", "        for subkey in self._children:\n            key |= copy.copy(subkey)\n", 'C14.4')
+T('C14', 'twin-export-subkeys-by-keyid', PGP, "        for sk in self._children.values():\n            _bytes += sk.__bytearray__()\n\n        return _bytes",
+  "        for keyid in self._children:\n            _bytes += self._children[keyid].__bytearray__()\n\n        return _bytes")
+M('C14', 'export-first-subkey-only', PGP, "        for sk in self._children.values():\n            _bytes += sk.__bytearray__()\n\n        return _bytes",
+  "        for sk in list(self._children.values())[:1]:\n            _bytes += sk.__bytearray__()\n\n        return _bytes", 'C14.1')
